@@ -4,62 +4,20 @@
 
 // failed check (?): 
 #[test]
-fn kani_concrete_playback_pred_7978656229940045853() {
+fn kani_concrete_playback_pred_11764783113951268292() {
     let concrete_vals: Vec<Vec<u8>> = vec![
-        // 0ul
-        vec![0, 0, 0, 0, 0, 0, 0, 0],
-        // 16ul
-        vec![16, 0, 0, 0, 0, 0, 0, 0],
-        // 16ul
-        vec![16, 0, 0, 0, 0, 0, 0, 0],
-        // 26ul
-        vec![26, 0, 0, 0, 0, 0, 0, 0],
-        // 0
-        vec![0],
-        // 0ul
-        vec![0, 0, 0, 0, 0, 0, 0, 0],
-        // 6ul
-        vec![6, 0, 0, 0, 0, 0, 0, 0],
-    ];
-    kani::concrete_playback_run(concrete_vals, crate::c04::q::n3_u40::pred);
-}
-
-// failed check (?): 
-#[test]
-fn kani_concrete_playback_pred_2009044840773594193() {
-    let concrete_vals: Vec<Vec<u8>> = vec![
+        // 24ul
+        vec![24, 0, 0, 0, 0, 0, 0, 0],
+        // 33ul
+        vec![33, 0, 0, 0, 0, 0, 0, 0],
         // 40ul
         vec![40, 0, 0, 0, 0, 0, 0, 0],
         // 40ul
         vec![40, 0, 0, 0, 0, 0, 0, 0],
-        // 40ul
-        vec![40, 0, 0, 0, 0, 0, 0, 0],
-        // 6ul
-        vec![6, 0, 0, 0, 0, 0, 0, 0],
-        // 0
-        vec![0],
-        // 5ul
-        vec![5, 0, 0, 0, 0, 0, 0, 0],
-    ];
-    kani::concrete_playback_run(concrete_vals, crate::c04::q::n3_u40::pred);
-}
-
-// failed check (?): 
-#[test]
-fn kani_concrete_playback_pred_7736684575975885545() {
-    let concrete_vals: Vec<Vec<u8>> = vec![
-        // 40ul
-        vec![40, 0, 0, 0, 0, 0, 0, 0],
-        // 40ul
-        vec![40, 0, 0, 0, 0, 0, 0, 0],
-        // 40ul
-        vec![40, 0, 0, 0, 0, 0, 0, 0],
-        // 41ul
-        vec![41, 0, 0, 0, 0, 0, 0, 0],
         // 1
         vec![1],
-        // 5ul
-        vec![5, 0, 0, 0, 0, 0, 0, 0],
+        // 3ul
+        vec![3, 0, 0, 0, 0, 0, 0, 0],
         // 8ul
         vec![8, 0, 0, 0, 0, 0, 0, 0],
     ];
@@ -68,20 +26,64 @@ fn kani_concrete_playback_pred_7736684575975885545() {
 
 // failed check (?): 
 #[test]
-fn kani_concrete_playback_pred_6222841623314980937() {
+fn kani_concrete_playback_pred_3731746911880069245() {
     let concrete_vals: Vec<Vec<u8>> = vec![
+        // 1ul
+        vec![1, 0, 0, 0, 0, 0, 0, 0],
+        // 20ul
+        vec![20, 0, 0, 0, 0, 0, 0, 0],
         // 32ul
         vec![32, 0, 0, 0, 0, 0, 0, 0],
-        // 32ul
-        vec![32, 0, 0, 0, 0, 0, 0, 0],
-        // 32ul
-        vec![32, 0, 0, 0, 0, 0, 0, 0],
-        // 17592186044226ul
-        vec![66, 255, 255, 255, 255, 15, 0, 0],
-        // 0
-        vec![0],
-        // 4ul
-        vec![4, 0, 0, 0, 0, 0, 0, 0],
+        // 3ul
+        vec![3, 0, 0, 0, 0, 0, 0, 0],
+        // 1
+        vec![1],
+        // 0ul
+        vec![0, 0, 0, 0, 0, 0, 0, 0],
+        // 1ul
+        vec![1, 0, 0, 0, 0, 0, 0, 0],
+    ];
+    kani::concrete_playback_run(concrete_vals, crate::c04::q::n3_u40::pred);
+}
+
+// failed check (?): 
+#[test]
+fn kani_concrete_playback_pred_12534257990189681957() {
+    let concrete_vals: Vec<Vec<u8>> = vec![
+        // 12ul
+        vec![12, 0, 0, 0, 0, 0, 0, 0],
+        // 40ul
+        vec![40, 0, 0, 0, 0, 0, 0, 0],
+        // 40ul
+        vec![40, 0, 0, 0, 0, 0, 0, 0],
+        // 0ul
+        vec![0, 0, 0, 0, 0, 0, 0, 0],
+        // 1
+        vec![1],
+        // 1ul
+        vec![1, 0, 0, 0, 0, 0, 0, 0],
+    ];
+    kani::concrete_playback_run(concrete_vals, crate::c04::q::n3_u40::pred);
+}
+
+// failed check (?): 
+#[test]
+fn kani_concrete_playback_pred_7544644407531714336() {
+    let concrete_vals: Vec<Vec<u8>> = vec![
+        // 8ul
+        vec![8, 0, 0, 0, 0, 0, 0, 0],
+        // 27ul
+        vec![27, 0, 0, 0, 0, 0, 0, 0],
+        // 40ul
+        vec![40, 0, 0, 0, 0, 0, 0, 0],
+        // 281ul
+        vec![25, 1, 0, 0, 0, 0, 0, 0],
+        // 1
+        vec![1],
+        // 1ul
+        vec![1, 0, 0, 0, 0, 0, 0, 0],
+        // 8ul
+        vec![8, 0, 0, 0, 0, 0, 0, 0],
     ];
     kani::concrete_playback_run(concrete_vals, crate::c04::q::n3_u40::pred);
 }
